@@ -81,6 +81,37 @@ CHECKS = {
              'IO-NETCDF-ROUNDTRIP stated only.',
         technique='AST-generated verification conditions over the real source (integer arithmetic on structurally tracked formatted strings), z3; exhaustive native run over all 1561 offsets',
         design_ref='Part III C17'),
+    'C11': dict(
+        category='proof',
+        text='Decision tables: check_dataset of the six built-in classes (real bodies) is executed on 32 structural dataset '
+             'variants (each convention and its near-misses: one distinguishing attribute / variable removed or altered; '
+             'extents and contents symbolic) and equals the stated predicate; guess_convention / get_dataset_convention '
+             'pick the highest specificity for both entry-point orders; with two registered toy conventions over '
+             '{None, LOW, HIGH} x both registration orders the registered one wins ties. Binding: every sequence over '
+             '{access, construct+bind, copy, access on copy, bind again} up to length 3 (thorough 4) is executed on the '
+             'real accessor / State / bind code: first attachment is kept, second bind refused, copies independent; an AST '
+             'scan shows State.bind_convention is the only store to .convention and Convention.bind its only caller; '
+             'a taint scan finds no hash/id/clock/randomness/set iteration in detection code.',
+        note=TRUST + 'Assumed: XR-ACCESSOR-CACHE (one cached accessor object per Dataset object, copies start empty), '
+             'ENTRYPOINTS-DETERMINISTIC, PY-SORTED-STABLE. Histories are enumerated up to a bound (stated), the write-once '
+             'invariant behind them is the unbounded argument.',
+        technique='symbolic execution of the real source against enumerated dataset structures and operation histories (z3 for the symbolic parts), AST invariant scans; bounded native replay',
+        design_ref='Part III C11'),
+    'C16': dict(
+        category='proof',
+        text='The hash object is a trace of chunks. For 11 convention configurations the trace produced by the real '
+             'make_cache_key / hash_geometry / hash_string / hash_int / hash_attributes equals, chunk by chunk, the '
+             'specified stream over exactly the geometry inventory (which is checked against the geometry variables of '
+             'the dataset); datasets differing only outside the geometry give chunk-wise identical traces for all '
+             'extents; every single edit (value at any index, dtype, encoding dtype, reshape, attribute add/change/'
+             'remove, convention class) changes at least one chunk; hash_int emits 4 bytes iff the value fits int32 else '
+             'OverflowError; no set iteration / hash() / id() occurs. One obligation (attribute chunk is a function of '
+             'attribute values) is refuted under the PY-MARSHAL contract and listed as a known finding.',
+        note=TRUST + 'Assumed: A-HASH (BLAKE2b collision free), PY-MARSHAL (injective; bytes depend on reference state; stable '
+             'for the same objects within a process), NP-TOBYTES, A-INT32-SIZE, and that a differing chunk at a framed '
+             'position makes the concatenated streams differ (the shape chunk has no ndim prefix: A-SHAPE-FRAMING).',
+        technique='AST-generated verification conditions over the real source with a trace model of the hash object, z3; bounded native replay in fresh processes with different hash seeds',
+        design_ref='Part III C16'),
 }
 
 NOT_YET = 'check not built yet (work in progress, see DESIGN.md)'
